@@ -28,7 +28,13 @@ for dd in sorted(glob.glob(V + "/seeded/*")):
     m = json.load(open(dd + "/meta.json"))
     q = m.get("ran", {}).get("checks", {}).get("quick", {})
     notes = open(dd + "/notes.md").readline().strip().lstrip("# ").strip()
-    rows.append("| %s | %s | %s | %s |\n" % (os.path.basename(dd), "yes" if q.get("detected") else "NO",
+    verdict = "yes" if q.get("detected") else "NO"
+    if not q.get("detected"):
+        for name, oq in m.get("ran", {}).get("checks", {}).items():
+            if name.startswith("quick-of-") and oq.get("detected"):
+                verdict = "by the %s check" % name[len("quick-of-"):]
+                q = oq
+    rows.append("| %s | %s | %s | %s |\n" % (os.path.basename(dd), verdict,
                                            ", ".join(q.get("keys", [])[:2]).replace("|", "/"), notes.replace("|", "/")[:110]))
 i = s.index("| change | caught by the quick tier |")
 j = s.index("\n\n", i)
